@@ -189,3 +189,24 @@ func RangeFuncDeferNested(n int) (r int) {
 	}
 	return 1
 }
+
+// constant cases over a tag whose evaluation has control flow of its own: the multi-way branch belongs
+// at the end of the tag's last block, after the short-circuit evaluation
+func SwitchBoolTag(a int, b bool) int {
+	r := 0
+	switch a > 0 && b {
+	case true:
+		r += 1
+		emitI(r)
+		fallthrough
+	case false:
+		r += 10
+	}
+	switch x := a - 1; x < 0 || !b {
+	case false:
+		r += 100
+	default:
+		r += 1000
+	}
+	return r
+}
